@@ -136,11 +136,24 @@ def gen_c14(seed):
                 c["sampler"]["t"]["kind"] = "random"
                 k += 1
         sharing["pdomain"] = k >= 2
+    rg_ = rnd(seed, "derived-geometry")
+    if sharing["domains"] and rg_.random() < 0.3:
+        # one condition builds its own geometry FROM a shared domain (disc minus a t-dependent hole), another one
+        # samples the shared disc itself together with t
+        cand = [c for c in conds if c["kind"] in ("pinn", "mean", "single") and c["sampler"]["x"]["dom"] != "pdisc"]
+        if len(cand) >= 2:
+            for c, dname in zip(cand[:2], ("tring", "disc")):
+                c["sampler"]["x"] = {"dom": dname, "kind": "random", "n": c["sampler"]["x"]["n"]}
+                c["sampler"].setdefault("t", {"kind": "grid", "n": 2})
+                c["sampler"]["t"]["n"] = max(2, c["sampler"]["t"]["n"])
+                c["sampler"].pop("share_x", None)
+            sharing["derived"] = True
     rs_ = rnd(seed, "shared-sampler")
     if rs_.random() < 0.3:
         # ONE non-static sampler object over x used by several conditions: alone, inside a product with a t-sampler,
         # as the non-periodic sampler of a periodic condition
-        cand = [c for c in conds if c.get("sampler") and c["sampler"]["x"]["dom"] != "pdisc" and c["kind"] != "adaptw"]
+        cand = [c for c in conds if c.get("sampler") and c["sampler"]["x"]["dom"] not in ("pdisc", "tring") and c["kind"] != "adaptw"
+                and not (sharing.get("derived") and c["sampler"]["x"]["dom"] == "disc")]
         if len(cand) >= 2:
             x0 = dict(cand[0]["sampler"]["x"])
             for c in cand:
